@@ -1,4 +1,5 @@
 From GV Require Import Base.Grammar Base.Analyses LR.Automaton LR.Validator LR.Spec LR.Sound LR.Complete LR.Prefix.
+From GV Require Repair.Spec Repair.Proofs.
 
 Theorem C04_shifted_prefix_viable : shifted_prefix_viable_stmt.
 Proof. exact shifted_prefix_viable. Qed.
@@ -11,3 +12,11 @@ Print Assumptions C04_first_error_not_viable.
 Theorem C04_lr_never_panics : lr_never_panics_stmt.
 Proof. exact lr_never_panics. Qed.
 Print Assumptions C04_lr_never_panics.
+
+(* "With recovery on, the first reported error is at that same lexeme": the first
+   error of the recovery driver (mirror of the error branch of Parser::lr, for any
+   oracle of repair sequences) is exactly the plain interpreter's rejection, to which
+   the two theorems above apply. *)
+Theorem C04_recovery_first_error_is_plain_reject : Repair.Spec.first_error_is_plain_reject_stmt.
+Proof. exact Repair.Proofs.first_error_is_plain_reject. Qed.
+Print Assumptions C04_recovery_first_error_is_plain_reject.
